@@ -234,7 +234,7 @@ sbc_opcodes = {
     "VERIFY_12": OpCode("VERIFY_12", 0xAF, {}),
     "VERIFY_16": OpCode("VERIFY_16", 0x8F, {}),
     "VOLUME_SET_IN": OpCode("VOLUME_SET_IN", 0xBE, {}),
-    "VOLUME_SET_OUT": OpCode("VOLUME_SET_IN", 0xBF, {}),
+    "VOLUME_SET_OUT": OpCode("VOLUME_SET_OUT", 0xBF, {}),
     "WRITE_6": OpCode("WRITE_6", 0x0A, {}),
     "WRITE_10": OpCode("WRITE_10", 0x2A, {}),
     "WRITE_12": OpCode("WRITE_12", 0xAA, {}),
